@@ -136,7 +136,7 @@ func c05NT(c fsCase) (bool, []string) {
 	return nt, cl
 }
 
-const c05Rule = "outage scripts: fault (kind x direction x frame x position) -> k in 0..90 refused redials (TCP reset, or an HTTP 503 / plain 200 answer instead of the protocol switch) -> server reachable again -> optional second fault on the new connection; backoff min 1-20 ms / max 5-100 ms; {reconnect, no-reconnect} x {retry-tagged, untagged} x {error mapping on, off}; plus direct generation of (min, max, attempt) for the backoff function over [1us,1h] x [0,10^6]. Non-trivial = at least one failed redial before heal, or a second fault, or an outage longer than 75 attempts; distinct by descriptor hash"
+const c05Rule = "outage scripts: fault (kind x direction x frame x position) -> k in 0..90 refused redials (TCP reset, or an HTTP 503 / plain 200 answer instead of the protocol switch) -> server reachable again -> optional second fault on the new connection; backoff min 1-20 ms / max 5-100 ms; {reconnect, no-reconnect} x {retry-tagged (with and without a context parameter), untagged} x {error mapping on, off}; plus direct generation of (min, max, attempt) for the backoff function over [1us,1h] x [0,10^6]. Non-trivial = at least one failed redial before heal, or a second fault, or an outage longer than 75 attempts; distinct by descriptor hash"
 
 func TestC05(t *testing.T) {
 	rec := NewRec("C05", c05Rule)
@@ -218,6 +218,7 @@ func TestC05(t *testing.T) {
 		base := []fsCall{
 			{Kind: "call", Plan: Plan{Gate: true}, When: "pre"}, {Kind: "retry", Plan: Plan{Gate: true}, When: "pre"}, {Kind: "call", When: "pre"},
 			{Kind: "retry", When: "noticed"}, {Kind: "call", When: "window"}, {Kind: "retry", When: "window"}, {Kind: "call", When: "healed"},
+			{Kind: "retry", Plan: Plan{Gate: true, NoCtx: true}, When: "pre"}, {Kind: "retry", Plan: Plan{NoCtx: true}, When: "window"},
 		}
 		sh, nsh := shard()
 		k := 0
@@ -261,6 +262,7 @@ func TestC05(t *testing.T) {
 			}
 			if c.Calls[i].Kind == "retry" {
 				c.Calls[i].Plan.Fail = ""
+				c.Calls[i].Plan.NoCtx = rapid.IntRange(0, 2).Draw(rt, fmt.Sprintf("retrynoctx%d", i)) == 0
 			}
 		}
 		c.Fault = genFault(rt, "f1", npre+1)
